@@ -291,7 +291,7 @@ PROPS['C11'] = dict(
   explanation='Bounded symbolic execution of the real Ripser engine (gudhi/ripser.h: distance-matrix classes, the three simplex encodings incl. the 128-bit integer class, coboundary enumerators, apparent pairs, the hash-map based cohomology; clang IR of the headers in /repo): every dissimilarity is a finite-grid float (ties, no triangle inequality), threshold, dim_max, input form and encoding are forked by the solver, the modulus is concrete per unit; the streamed intervals (zero-length dropped) are compared as multisets per dimension with a dense signed Z_p reduction of the truncated Rips flag filtration computed in the harness.',
   bounds=dict(quick='(+ unit bigindex: 5 points among 2050 isolated vertices in the sparse form with active labels 1030+256i among 2055 vertices, p=3, dim_max 2, concrete matrices enumerated by the solver: packed simplex indices exceed 32 bits and differ in their high bits) n=4 points, distances in {1,2}, thresholds {0.5,1,2,inf}, dim_max 0..2, forms full/lower/upper/sparse, encodings auto/bitfield-64/bitfield-128/cns-128 combined by a covering design (every pair of factors levels), modulus 2 and 3; n=3 modulus 5; sparse input with 1500 isolated padding vertices before the 4 active ones (vertex ids and packed simplex indices beyond 32 bits), modulus 3', thorough='full cross product at n=4; n=5 with distances in {1,2}, modulus 2 and 3'),
   outside=['Euclidean point-cloud input (sqrt of symbolic coordinates)', 'more than 5 points', 'the SIMD path of boost::unordered_flat_map (compiled with -U__SSE2__)', 'moduli above 5'],
-  budget=dict(quick=600, thorough=3000),
+  budget=dict(quick=1200, thorough=3300),
   units=[U('ripser_n4_p2', 'C11_ripser.cpp', ['VP_N=4', 'VP_P=2', 'VP_DMAX=2'], cflags=['-U__SSE2__'], weight=10, must_reach=_t11), U('ripser_n4_p3', 'C11_ripser.cpp', ['VP_N=4', 'VP_P=3', 'VP_DMAX=2'], cflags=['-U__SSE2__'], weight=10, must_reach=_t11),
          U('ripser_n5_p3_bigindex', 'C11_ripser.cpp', ['VP_N=5', 'VP_P=3', 'VP_DMAX=2', 'VP_PAD=1030', 'VP_PADGAP=256', 'VP_PADDIM=2', 'VP_FORKD'], cflags=['-U__SSE2__'], weight=20, must_reach=['end', 'sparse']),
          U('ripser_n3_p5', 'C11_ripser.cpp', ['VP_N=3', 'VP_P=5', 'VP_DMAX=3'], cflags=['-U__SSE2__'], weight=5, must_reach=_t11),
